@@ -368,5 +368,25 @@ fn main() {
         |h, st| h.tape_search("c05.smallbuf", cases, 64, st, |tape, st| smallbuf_prop(&model, tape, st)),
         |case| replay_tape(case, |tape, st| smallbuf_prop(&model, tape, st)),
     );
+    h.check(
+        "c05.fuzz_replay",
+        "seed inputs of the fz_stream campaign and saved fuzzer findings (byte layout: N index, capacity index, schedule seed, Pending seed, stream) under the C05 oracles",
+        true,
+        |_h, st| {
+            for seed in fixture::fuzzing::STREAM_SEEDS {
+                st.eval();
+                if let Err(msg) = vcore::runner::guarded(|| fixture::fuzzing::stream_case_for(seed, true, false).map(|_| ())) {
+                    return Some(vcore::runner::Failure {
+                        message: msg,
+                        case: json!({ "hex": hex(seed) }),
+                    });
+                }
+                st.nontrivial(seed);
+            }
+            None
+        },
+        |case| fixture::fuzzing::stream_case_for(&unhex(case["hex"].as_str().unwrap_or("")), true, false).map(|_| ()),
+    );
+    fixture::fuzzing::campaign_part(&mut h, "C05", "c05.fuzz_campaign");
     h.finish();
 }
